@@ -35,6 +35,9 @@ type Run struct {
 	verbose   bool
 	checksRun int
 	allocated int // entities created by the current call
+	// lines written to the trace: the driver must have processed exactly these (END line)
+	oLines, rLines, dLines int
+	cloneLines             []string
 }
 
 func (r *Run) fail(prop, sig, detail string, ops []string) {
@@ -56,6 +59,46 @@ func shapeOf(taint string) string {
 }
 
 func dash(s string) string { return strings.ReplaceAll(s, " ", "-") }
+
+// panicClass: the text of a panic without the numbers, as part of the signature
+func panicClass(msg string) string {
+	msg = strings.TrimPrefix(msg, "runtime error: ")
+	var sb strings.Builder
+	lastDash := true
+	for _, c := range strings.ToLower(msg) {
+		switch {
+		case c >= 'a' && c <= 'z':
+			sb.WriteRune(c)
+			lastDash = false
+		case !lastDash:
+			sb.WriteByte('-')
+			lastDash = true
+		}
+		if sb.Len() >= 48 {
+			break
+		}
+	}
+	return strings.Trim(sb.String(), "-")
+}
+
+// renamesNodeOfAttachedDeadInterface: Node.UpdateName / UpdateID of a node one of whose removed
+// interfaces is still listed by a bus (state before the call)
+func renamesNodeOfAttachedDeadInterface(p *Pool, o Op) bool {
+	if (o.Name != "NodeUpdateName" && o.Name != "NodeUpdateID") || len(o.A) == 0 {
+		return false
+	}
+	nd := p.node(o.A[0])
+	if nd == nil {
+		return false
+	}
+	for _, h := range p.of(KIface) {
+		e := p.ents[h-1]
+		if e.Dead && e.Iface != nil && e.Iface.Node() == nd && e.Iface.ParentBus() != nil {
+			return true
+		}
+	}
+	return false
+}
 
 func propOf(clause string) string {
 	if len(clause) >= 3 {
@@ -101,6 +144,7 @@ func (r *Run) runHistory(idx int, next func(p *Pool, step int) (Op, bool), onTai
 			r.fallible++
 		}
 		shared := sharedFollower(p, o)
+		deadAttached := renamesNodeOfAttachedDeadInterface(p, o)
 		nBefore := len(p.ents)
 		out, bad := exec(p, o)
 		if bad != nil {
@@ -108,19 +152,26 @@ func (r *Run) runHistory(idx int, next func(p *Pool, step int) (Op, bool), onTai
 			os.Exit(3)
 		}
 		r.allocated = len(p.ents) - nBefore
+		r.cloneLines, p.cloneLines = p.cloneLines, nil
+		cloneShared := p.cloneShared
+		p.cloneShared = false
 		done = append(done, o.String())
 		h.Write([]byte(o.String() + ";"))
 		st := site(o)
+		d35hit := false
 		failOn := func(prop, sig, detail string) {
 			if tn != "" && out.Err == nil && !out.Panicked && !strings.HasPrefix(sig, "c06-panic") && !strings.HasPrefix(sig, "c06-error-mutates") {
 				// the failing call is itself an instance of an open finding: the signature names the
 				// clause, the call site and the shape of the argument
 				sig += "+" + shapeOf(tn)
-			} else if taint == "removed-interface-used" && !strings.HasPrefix(sig, "c06-panic") && !strings.HasPrefix(sig, "c06-error-mutates") {
-				sig += "+" + shapeOf(taint) // the scripted rename after a removed interface was attached
-			} else if shared && (strings.HasPrefix(sig, "c06-panic@") || strings.HasPrefix(sig, "c06-layout-invalid@")) {
+			} else if deadAttached && out.Err == nil && !out.Panicked && !strings.HasPrefix(sig, "c06-panic") && !strings.HasPrefix(sig, "c06-error-mutates") {
+				// decided on the state before the call: a rename / id change of a node one of whose removed
+				// interfaces is still listed by a bus (the consequence of the removed-interface finding)
+				sig += "+interface-removed-from-its-node"
+			} else if shared && (strings.HasPrefix(sig, "c06-panic@") || strings.HasPrefix(sig, "c06-layout-invalid.")) {
 				// size change of a multiplexed signal whose follower is shared by several groups
 				sig += "+follower-shared-by-groups"
+				d35hit = true
 			}
 			r.fail(prop, sig, detail, done)
 		}
@@ -134,7 +185,7 @@ func (r *Run) runHistory(idx int, next func(p *Pool, step int) (Op, bool), onTai
 			// the panic is reported as a property failure of its own (c06-panic@…); the history ends
 			// here and the model is not compared on this call
 			fmt.Fprintf(r.trace, "# panic in %s\n", line)
-			failOn("c06", "c06-panic@"+st, fmt.Sprintf("%s panicked: %s", st, trunc(out.PanicMsg, 200)))
+			failOn("c06", "c06-panic@"+st+":"+panicClass(out.PanicMsg), fmt.Sprintf("%s panicked: %s", st, trunc(out.PanicMsg, 200)))
 			r.hist[o.Name+".panic"]++
 			if r.verbose {
 				fmt.Printf("%-40s PANIC %s\n", o, out.PanicMsg)
@@ -200,8 +251,10 @@ func (r *Run) runHistory(idx int, next func(p *Pool, step int) (Op, bool), onTai
 		r.emitOp(o, line)
 		if modelled(o.Name) {
 			fmt.Fprintf(r.trace, "R %s\n", res)
+			r.rLines++
 		}
 		fmt.Fprintf(r.trace, "D %s\n", modelDump(p))
+		r.dLines++
 		key := o.Name + ".ok"
 		if out.Err != nil {
 			key = o.Name + "." + cause
@@ -219,12 +272,13 @@ func (r *Run) runHistory(idx int, next func(p *Pool, step int) (Op, bool), onTai
 		// property predicates on the implementation
 		r.checksRun++
 		nowBroken := map[string]bool{}
-		for _, c := range checkAll(p) {
+		for _, f := range checkAll(p) {
+			c := f.Msg
 			id := clauseID(c)
-			nowBroken[id] = true
-			// a clause that was already broken before this call is attributed to the call
-			// after which it first failed
-			if !prevBroken[id] {
+			nowBroken[f.Key] = true
+			// a finding (clause + entity) that was already there before this call is attributed to the
+			// call after which it first appeared; the same clause broken at another entity is new
+			if !prevBroken[f.Key] {
 				failOn(propOf(id), id+"@"+st, c)
 			}
 			if r.verbose {
@@ -232,6 +286,17 @@ func (r *Run) runHistory(idx int, next func(p *Pool, step int) (Op, bool), onTai
 			}
 		}
 		prevBroken = nowBroken
+		if d35hit {
+			// the call fell under the open finding D35 and left a corrupted layout behind: like every
+			// other finding trigger it ends the history, so that nothing later is attributed to it
+			break
+		}
+		if cloneShared {
+			// the clone, or one of its children, is an object that already existed: the pool (and the
+			// model, which created new entities) no longer describe the implementation; the history ends
+			failOn("c05", "c05-clone-shares-objects@"+st, st+": the clone or one of its children is an object the original still holds")
+			break
+		}
 		// once a call fell under an open finding (re-attach, second receiving interface of a node,
 		// removed interface used) its immediate symptom has been evaluated under the clause's own
 		// signature; nothing else is attributed to it: the history ends (top of the loop)
@@ -242,13 +307,27 @@ func (r *Run) runHistory(idx int, next func(p *Pool, step int) (Op, bool), onTai
 }
 
 func (r *Run) emitOp(o Op, line string) {
+	if o.Name == "CloneEnum" || o.Name == "CloneEval" {
+		// a composite of model operations (constructor, and for an enum one constructor + AddValue per
+		// value); the state is compared after the whole call
+		fmt.Fprintf(r.trace, "X %s\n", line)
+		for _, l := range r.cloneLines {
+			fmt.Fprintf(r.trace, "O %s\nR ok\n", l)
+			r.oLines++
+			r.rLines++
+		}
+		return
+	}
 	if modelled(o.Name) {
 		fmt.Fprintf(r.trace, "O %s\n", line)
+		r.oLines++
 	} else {
 		fmt.Fprintf(r.trace, "X %s\n", line)
 		// entities of kinds the model does not have still consume handles
 		for i := 0; i < r.allocated; i++ {
 			fmt.Fprintf(r.trace, "O NewOther\nR ok\n")
+			r.oLines++
+			r.rLines++
 		}
 	}
 }
@@ -370,15 +449,23 @@ func main() {
 			}, func(t string) { g.taint = t })
 		}
 	}
-	r.trace.Flush()
-	f.Close()
+	// the END line lets the check tell a complete trace from a truncated one
+	fmt.Fprintf(r.trace, "END %d %d %d %d\n", r.cases, r.oLines, r.rLines, r.dLines)
+	if err := r.trace.Flush(); err != nil {
+		fmt.Fprintf(os.Stderr, "harness: writing the trace failed: %v\n", err)
+		os.Exit(3)
+	}
+	if err := f.Close(); err != nil {
+		fmt.Fprintf(os.Stderr, "harness: closing the trace failed: %v\n", err)
+		os.Exit(3)
+	}
 
 	sf, err := os.Create(outPath + ".summary")
 	if err != nil {
 		panic(err)
 	}
 	w := bufio.NewWriter(sf)
-	fmt.Fprintf(w, "cases %d\nsteps %d\nfallible %d\nrefused %d\ntainted %d\nnontrivial %d\nchecks %d\n", r.cases, r.steps, r.fallible, r.refused, r.tainted, len(r.nontriv), r.checksRun)
+	fmt.Fprintf(w, "cases %d\nsteps %d\nfallible %d\nrefused %d\ntainted %d\nnontrivial %d\nchecks %d\nolines %d\nrlines %d\ndlines %d\n", r.cases, r.steps, r.fallible, r.refused, r.tainted, len(r.nontriv), r.checksRun, r.oLines, r.rLines, r.dLines)
 	var keys []string
 	for k := range r.hist {
 		keys = append(keys, k)
